@@ -7,18 +7,19 @@ package corerad
 // exactly), plus a black-box recurrence check on the running daemon.
 
 import (
-	"context"
 	"fmt"
-	"math/rand"
-	"net/netip"
 	"sort"
 	"time"
 
-	"github.com/mdlayher/corerad/internal/config"
 	"github.com/mdlayher/corerad/internal/verifsim"
+	"github.com/mdlayher/ndp"
 )
 
 const c05Block = 256 // interval pairs per simulated run
+
+// c05Direct is set by zz_sim_c05direct_test.go when the component harness is
+// part of the build.
+var c05Direct bool
 
 // c05Pairs enumerates every accepted (min,max) pair at one-second granularity:
 // max 4..1800, min 3..floor(0.75*max), plus min=max for max<9 (the documented default).
@@ -68,7 +69,7 @@ func c05Pair(i int) (mn, mx int) {
 }
 
 func c05Enum(tier string) int {
-	if tier == "thorough" {
+	if tier == "thorough" && c05Direct {
 		return (c05Total() + c05Block - 1) / c05Block
 	}
 	return 0
@@ -84,7 +85,11 @@ func c05Gen(rng *verifsim.RNG, idx int, tier string) *Plan {
 		}
 		return p
 	}
-	switch rng.Pick(5, 2, 2, 2, 3) {
+	pick := rng.Pick(5, 2, 2, 2, 3)
+	if !c05Direct {
+		pick = 3
+	}
+	switch pick {
 	case 4:
 		// the same Advertiser runs its loop again after a re-initialisation (the
 		// Dialer re-dials and Run calls advertise() once more): nothing of the
@@ -146,7 +151,24 @@ func c05Gen(rng *verifsim.RNG, idx int, tier string) *Plan {
 			s.MinInterval = sp(secStr(rng.Range(3, mx*3/4)))
 		}
 		q.Horizon = int64(rng.Dur(10*time.Minute, 3*time.Hour))
-		for i, k := 0, rng.Range(0, 10); i < k; i++ {
+		nrs := rng.Range(0, 10)
+		if rng.Bool(0.5) {
+			// solicitations answered by multicast must not disturb the pacing of
+			// the unsolicited ones: a narrow [min,max] (or min = max, the default
+			// below 9 s) makes every shift of the schedule visible
+			q.Class = "advertiser-solicited"
+			if rng.Bool(0.4) {
+				mx = rng.Range(6, 8)
+				s.MinInterval = nil
+			} else {
+				mx = rng.Range(12, 300)
+				s.MinInterval = sp(secStr(mx * 3 / 4))
+			}
+			s.MaxInterval = sp(secStr(mx))
+			q.Horizon = int64(rng.Dur(time.Duration(10*mx)*time.Second, time.Duration(60*mx)*time.Second))
+			nrs = rng.Range(3, 25)
+		}
+		for i := 0; i < nrs; i++ {
 			q.Actions = append(q.Actions, rsAction(int64(rng.Dur(0, time.Duration(q.Horizon)))+jitter(rng), "::"))
 		}
 		return q
@@ -154,110 +176,7 @@ func c05Gen(rng *verifsim.RNG, idx int, tier string) *Plan {
 	return p
 }
 
-// scriptedSource is a rand.Source whose Int63 values are scripted: the PRNG is
-// a nondeterminism source behind a seam like any other.
-type scriptedSource struct {
-	v []int64
-	i int
-}
-
-func (s *scriptedSource) Int63() int64 {
-	x := s.v[s.i%len(s.v)]
-	s.i++
-	return x
-}
-func (s *scriptedSource) Seed(int64) {}
-
 func init() {
-	scenarios["multicast"] = func(w *world, p *Plan, info *runInfo) {
-		const waits = 6
-		done := make(chan struct{})
-		running := 0
-		for j, st := range p.Steps {
-			j, st := j, st
-			a := &Advertiser{cfg: config.Interface{Name: "eth0", MinInterval: time.Duration(st.A), MaxInterval: time.Duration(st.B)}}
-			ctx, cancel := context.WithCancel(context.Background())
-			ipC := make(chan netip.Addr)
-			go func() {
-				// every pair starts at its own instant: whole-second waits of
-				// different pairs then never tie (timer ties are broken by the
-				// runtime, not by the plan), and every loop seeds its PRNG differently
-				time.Sleep(time.Duration(1+j*1009) * time.Nanosecond)
-				a.multicast(ctx, ipC)
-				w.log.Add(verifsim.Event{K: "mc.returned", Node: j})
-			}()
-			running++
-			go func() {
-				defer func() { done <- struct{}{} }()
-				for k := 0; k <= waits; k++ {
-					if st.S == "stall" && k < len(st.L) && st.L[k] > 0 {
-						time.Sleep(time.Duration(st.L[k]))
-						w.fault("consumer_stall")
-					}
-					<-ipC
-					w.log.Add(verifsim.Event{K: "mc.req", Node: j, V: int64(k)})
-				}
-				// the loop is now in its wait: stop it and make sure it stops
-				cancel()
-				w.log.Add(verifsim.Event{K: "mc.cancel", Node: j})
-				if st.S == "regen" {
-					// outage, then the next generation on the same Advertiser
-					time.Sleep(time.Duration(st.L[0]))
-					ctx2, cancel2 := context.WithCancel(context.Background())
-					ipC2 := make(chan netip.Addr)
-					go func() {
-						a.multicast(ctx2, ipC2)
-						w.log.Add(verifsim.Event{K: "mc.returned", Node: j, V: 2})
-					}()
-					for k := 0; k <= 4; k++ {
-						<-ipC2
-						w.log.Add(verifsim.Event{K: "mc.req2", Node: j, V: int64(k)})
-					}
-					cancel2()
-					select {
-					case <-ipC2:
-						w.log.Add(verifsim.Event{K: "mc.req", Node: j, V: -1})
-					case <-time.After(time.Duration(st.B) + 20*time.Second):
-					}
-					return
-				}
-				select {
-				case <-ipC:
-					w.log.Add(verifsim.Event{K: "mc.req", Node: j, V: -1})
-				case <-time.After(time.Duration(st.B) + 20*time.Second):
-				}
-			}()
-
-			// Extreme and boundary draws through the *rand.Rand parameter.
-			if st.A != st.B {
-				n := st.B - st.A
-				draws := []int64{0, n - 1, n / 2}
-				// values straddling the first and the last half-second rounding boundary
-				first := (nsSec/2 - st.A%nsSec + nsSec) % nsSec
-				for _, b := range []int64{first, first + (n-1-first)/nsSec*nsSec} {
-					for _, d := range []int64{b - 1, b, b + 1} {
-						if d >= 0 && d < n {
-							draws = append(draws, d)
-						}
-					}
-				}
-				for _, v := range draws {
-					for _, i := range []int{0, 2, 3, 10} {
-						d := multicastDelay(rand.New(&scriptedSource{v: []int64{v}}), i, time.Duration(st.A), time.Duration(st.B))
-						w.log.Add(verifsim.Event{K: "mc.delay", Node: j, V: int64(d), S: fmt.Sprintf("i=%d draw=%d", i, v)})
-					}
-				}
-			} else {
-				for _, i := range []int{0, 3} {
-					d := multicastDelay(rand.New(&scriptedSource{v: []int64{0}}), i, time.Duration(st.A), time.Duration(st.B))
-					w.log.Add(verifsim.Event{K: "mc.delay", Node: j, V: int64(d), S: fmt.Sprintf("i=%d static", i)})
-				}
-			}
-		}
-		for ; running > 0; running-- {
-			<-done
-		}
-	}
 	register("C05", c05Enum, c05Gen, c05Oracle)
 }
 
@@ -373,7 +292,7 @@ func c05Recurrence(info *runInfo, res *verifsim.Result) {
 	spec := &info.plan.Nodes[0].Config.Interfaces[0]
 	mx := int64(maxIntervalOf(spec))
 	limit := mx + 3*nsSec + nsSec
-	stopT, _, _ := stopInstant(h, 0)
+	stopT, stopSeq, _ := stopInstant(h, 0)
 	n := 0
 	for _, g := range h.gens {
 		last := g.t0
@@ -394,6 +313,77 @@ func c05Recurrence(info *runInfo, res *verifsim.Result) {
 		if end-last > limit {
 			res.Violate("C05.recur", "gap", "max_interval=%s: no multicast RA between %s and the end of the generation at %s", time.Duration(mx), ms(last), ms(end))
 		}
+		c05Unsolicited(res, spec, g, end, stopSeq)
 	}
 	res.Nontrivial = n >= 5
+}
+
+// c05Unsolicited: black-box pacing of the unsolicited RAs of one generation in a
+// fault-free run. A multicast RA that no solicitation from :: can account for
+// (none received in the 3.5 s before it: MAX_RA_DELAY_TIME + MIN_DELAY_BETWEEN_RAS)
+// and that was not held back by the rate limit (no multicast RA in the 3 s before
+// it) left at the very instant the unsolicited loop asked for it. The time
+// between two such RAs is a sum of k >= 1 unsolicited waits, each within
+// [min,max] (to the second): a solicitation in between must not have moved the
+// schedule.
+func c05Unsolicited(res *verifsim.Result, spec *IfaceSpec, g *generation, end int64, stopSeq int) {
+	mx := int64(maxIntervalOf(spec))
+	mn := mx // documented default below 9 s
+	if spec.MinInterval != nil && *spec.MinInterval != "" && *spec.MinInterval != "auto" {
+		d, err := time.ParseDuration(*spec.MinInterval)
+		if err != nil {
+			return
+		}
+		mn = int64(d)
+	} else if mx >= 9*nsSec {
+		mn = mx * 33 / 100
+	}
+	var rs []int64
+	for _, r := range g.rxs {
+		if _, ok := r.msg.(*ndp.RouterSolicitation); ok && r.hop == 255 && r.src.IsUnspecified() {
+			rs = append(rs, r.t)
+		}
+	}
+	var mc []int64
+	for _, w := range g.writes {
+		if w.mc() && w.t <= end && (stopSeq == 0 || w.seq < stopSeq) {
+			if w.err != "" || w.marshalErr != "" {
+				return // not a fault-free generation
+			}
+			mc = append(mc, w.t)
+		}
+	}
+	const account = 3500*nsMs + nsMs
+	prevClean := int64(-1)
+	for i, m := range mc {
+		clean := i > 0 && m-mc[i-1] > 3*nsSec+nsMs
+		for _, r := range rs {
+			if r <= m && r >= m-account {
+				clean = false
+			}
+		}
+		if !clean {
+			continue
+		}
+		if prevClean >= 0 {
+			gap := m - prevClean
+			lo := mn
+			if prevClean-g.t0 < 52*nsSec && lo > 16*nsSec {
+				lo = 16 * nsSec // the first three waits are capped
+			}
+			ok := false
+			for k := int64(1); k*(lo-nsSec) < gap; k++ {
+				if gap < k*(mx+nsSec) {
+					ok = true
+					break
+				}
+			}
+			res.Probe("unsolicited_pair_judged")
+			if !ok {
+				res.Violate("C05.range", "unsolicited-gap", "min=%s max=%s: unsolicited multicast RAs at %s and %s are %s apart, which is not a sum of waits within [min,max] (solicitations from :: in between must not move the schedule)",
+					time.Duration(mn), time.Duration(mx), ms(prevClean), ms(m), time.Duration(gap))
+			}
+		}
+		prevClean = m
+	}
 }
